@@ -1,28 +1,33 @@
 (* C19: case decoding, model observation and the executable property predicate for discover.  No proofs here. *)
 From Curies.model Require Export Discovery Spec CheckQ.
 
+(* dc_known: the records of the optional pre-existing converter (what the harness builds it from);
+   dc_recog: what that converter's is_uri answers on every input URI, observed on the implementation -- "URIs the converter
+   already recognises" is judged against these answers (whether is_uri itself is right is C01's business) *)
 Record dcase := { dc_known : option (list record); dc_delims : list str; dc_cutoff : option nat;
-                  dc_meta : str; dc_uris : list str; dc_uris2 : list str; dc_alnum : str }.
+                  dc_meta : str; dc_uris : list str; dc_uris2 : list str; dc_alnum : str; dc_recog : list (str * bool) }.
 
 Definition as_nat (v : val) : option nat := match v with VInt z => Some (Z.to_nat z) | _ => None end.
 Definition decode_dcase (v : val) : option dcase :=
   match v with
-  | VList [kn; dl; cu; VStr meta; us; us2; VStr al] =>
-      match as_opt as_records kn, as_strs dl, as_opt as_nat cu, as_strs us, as_strs us2 with
-      | Some kn', Some dl', Some cu', Some us', Some us2' =>
-          Some {| dc_known := kn'; dc_delims := dl'; dc_cutoff := cu'; dc_meta := meta; dc_uris := us'; dc_uris2 := us2'; dc_alnum := al |}
-      | _, _, _, _, _ => None
+  | VList [kn; dl; cu; VStr meta; us; us2; VStr al; rc] =>
+      match as_opt as_records kn, as_strs dl, as_opt as_nat cu, as_strs us, as_strs us2,
+            as_list_of (fun e => match e with VList [VStr u; VInt b] => Some (u, negb (Z.eqb b 0)) | _ => None end) rc with
+      | Some kn', Some dl', Some cu', Some us', Some us2', Some rc' =>
+          Some {| dc_known := kn'; dc_delims := dl'; dc_cutoff := cu'; dc_meta := meta; dc_uris := us'; dc_uris2 := us2'; dc_alnum := al;
+                  dc_recog := rc' |}
+      | _, _, _, _, _, _ => None
       end
   | _ => None
   end.
 
 Definition alnum_of (k : dcase) : chr -> bool := fun c => existsb (N.eqb c) (dc_alnum k).
-Definition known_conv (k : dcase) : option conv :=
-  match dc_known k with Some rs => match mk_conv true [58%N] rs with Val c => Some c | Raise _ => None end | None => None end.
+Definition recog_tbl (k : dcase) : str -> bool :=
+  fun u => match List.find (fun e => str_eqb u (fst e)) (dc_recog k) with Some e => snd e | None => false end.
 
 (* observation of one discover call: [0; records; per input URI [compress u; expand (compress u)]] or [1] / [2] *)
-Definition obs_discover (al : chr -> bool) (known : option conv) (k : dcase) (uris : list str) : val :=
-  match discover al known (dc_delims k) (dc_cutoff k) (dc_meta k) uris with
+Definition obs_discover (al : chr -> bool) (recog : str -> bool) (k : dcase) (uris : list str) : val :=
+  match discover al recog (dc_delims k) (dc_cutoff k) (dc_meta k) uris with
   | Val D =>
       VList [VInt 0; VList (map vrecord (sort_records (recs D)));
              VList (map (fun u =>
@@ -32,15 +37,15 @@ Definition obs_discover (al : chr -> bool) (known : option conv) (k : dcase) (ur
   | Raise e => if lib_value_error e then VList [VInt 1] else VList [VInt 2]
   end.
 Definition model_dobs (k : dcase) : val :=
-  VList [obs_discover (alnum_of k) (known_conv k) k (dc_uris k); obs_discover (alnum_of k) (known_conv k) k (dc_uris2 k)].
+  VList [obs_discover (alnum_of k) (recog_tbl k) k (dc_uris k); obs_discover (alnum_of k) (recog_tbl k) k (dc_uris2 k)].
 
 (* ---- specification, written from the property text (no dictionary, no fold) ---- *)
 Section Spec.
 Variable al : chr -> bool.
-Variable known : option (list record).
+Variable recog : str -> bool.          (* converter.is_uri of the optional pre-existing converter *)
 Variable excl_github : bool.     (* true: the theorem's statement (known finding K1 excluded); false: the property as written *)
 
-Definition recognised (u : str) : bool := match known with Some rs => sp_is_uri rs u | None => false end.
+Definition recognised (u : str) : bool := recog u.
 Definition skipped (u : str) : bool := recognised u || (excl_github && github_issue u).
 Definition eff_delims (dl : list str) := match dl with [] => default_delimiters | _ => dl end.
 (* (uri prefix, luid) of every input URI that is not skipped and ends in an alphanumeric identifier after a delimiter *)
@@ -54,6 +59,9 @@ Definition spec_prefixes (dl : list str) (cutoff : option nat) (uris : list str)
 Definition spec_records (dl : list str) (cutoff : option nat) (meta : str) (uris : list str) : list record :=
   number_from 1 meta (spec_prefixes dl cutoff uris).
 End Spec.
+(* the recogniser of a strict converter over rs, by the naive specification *)
+Definition recog_rs (known : option (list record)) : str -> bool :=
+  fun u => match known with Some rs => sp_is_uri rs u | None => false end.
 
 Definition ends_with_delim (dl : list str) (p : str) : bool := existsb (fun d => endswith d p) dl.
 
@@ -62,7 +70,7 @@ Definition P_one (excl : bool) (k : dcase) (o : val) : bool :=
   let al := alnum_of k in
   match o with
   | VList [VInt 0; VList rs; VList rt] =>
-      let spec := spec_records al (dc_known k) excl (dc_delims k) (dc_cutoff k) (dc_meta k) (dc_uris k) in
+      let spec := spec_records al (recog_tbl k) excl (dc_delims k) (dc_cutoff k) (dc_meta k) (dc_uris k) in
       (* exactly the specified records: named metaprefix1.. in sorted URI-prefix order, cutoff respected *)
       val_eqb (VList rs) (VList (map vrecord (sort_records spec)))
       && forallb (fun r => ends_with_delim (eff_delims (dc_delims k)) (r_uri r)) spec
@@ -72,7 +80,7 @@ Definition P_one (excl : bool) (k : dcase) (o : val) : bool :=
           | _ => Nat.eqb (length rt) (length (dc_uris k)) &&
                  forallb (fun ur =>
                    let '(u, r) := ur in
-                   if skipped (dc_known k) excl u then true
+                   if skipped (recog_tbl k) excl u then true
                    else match classify al (eff_delims (dc_delims k)) u with
                         | None => true
                         | Some _ => match r with
@@ -100,7 +108,7 @@ Definition P_C19 (excl : bool) (k : dcase) (o : val) : bool :=
 Definition same_set (a b : list str) : bool := forallb (fun x => mem x b) a && forallb (fun x => mem x a) b.
 Definition valid_d (k : dcase) : bool :=
   forallb (fun d => negb (is_nil d)) (dc_delims k) && same_set (dc_uris k) (dc_uris2 k)
-  && match dc_known k with Some rs => strict_okb rs | None => true end.
+  && forallb (fun u => existsb (fun e => str_eqb u (fst e)) (dc_recog k)) (dc_uris k).
 
 (* [same; valid; P_excl(model); P_text(impl); model obs if different; P_excl(impl)] *)
 Definition run_discover (case obs : val) : val :=
